@@ -326,10 +326,6 @@ func (s *Session) Write(b []byte) (n int, err error) {
 	if s.isStateAfter(sessionClosed, true) {
 		return 0, io.ErrClosedPipe
 	}
-	defer func() {
-		s.writeDeadline.Store(0)
-	}()
-
 	// Before the first write, client needs to send open session request.
 	// Open session request is sent only once. Underlay may retry if the packet is lost.
 	if s.isClient && s.isState(sessionAttached) && !s.openSessionRequestSent.Swap(true) {
@@ -574,9 +570,13 @@ func (s *Session) writeChunk(b []byte) (n int, err error) {
 	}
 	lowEntropyMode, lowEntropyRotation, sendLowEntropy := s.lowEntropySendConfig()
 
-	// Stop writing when deadline is reached.
+	// Stop writing when deadline is reached. The deadline stays in force
+	// until the user changes it.
 	var timeC <-chan time.Time
 	if writeDeadline := s.writeDeadline.Load(); writeDeadline != 0 {
+		if !time.Now().Before(time.UnixMicro(writeDeadline)) {
+			return 0, stderror.ErrTimeout
+		}
 		timeC = time.After(time.Until(time.UnixMicro(writeDeadline)))
 	}
 
@@ -677,6 +677,9 @@ func (s *Session) writeChunk(b []byte) (n int, err error) {
 	for {
 		select {
 		case <-s.sendQueue.chanEmptyEvent:
+			shouldReturn = true
+		case <-timeC:
+			// The data is queued. Don't wait for it to move beyond the deadline.
 			shouldReturn = true
 		// do not consume s.sendQueue.chanNotEmptyEvent,
 		// because it is used to drive the output loop.
